@@ -73,6 +73,13 @@ Print Assumptions C17_emacs_text_unchanged.
    something to repeat are the intervals "\{1,\}" and "\{0,1\}") touches nothing in a pattern without a backslash, and is a
    fixed point - read again by the same rules the spelled text holds nothing left to spell, so every operator has been read
    in the state the rules give it. *)
+(* Before anything else the collating symbols and equivalence classes of bracket expressions are spelled as the characters they
+   name (spell_collating: also what is compiled first, so that "[a-[.c.]]" is judged as the range it is); a pattern that holds
+   none goes through as it is. *)
+Theorem C17_collating_spelling_only_symbols : forall cls p, collfree p = true -> collp cls CT p = p.
+Proof. intros cls p H. now apply collp_collfree. Qed.
+Print Assumptions C17_collating_spelling_only_symbols.
+
 Theorem C17_basic_spelling_needs_a_backslash : forall gb pq nl p,
   forallb (fun c => negb (Nat.eqb c c_bs)) p = true -> spell gb pq nl p = p.
 Proof. exact spell_no_backslash. Qed.
